@@ -27,6 +27,9 @@
   `C02_step_counterexample` refutes the full statement on a concrete machine.
 -/
 import Proofs.C02
+import Proofs.C02RoundTrip
+import Proofs.C02Project
+import Proofs.C02Q
 
 namespace TM
 open C02
@@ -195,6 +198,68 @@ theorem C02_history (cfg : NCfg) (hwf : cfg.states.WF = true) (sc : Script) (hR 
   simp only [G.clean, Bool.and_eq_true, Bool.not_eq_true']
   exact ⟨⟨⟨⟨⟨b1, b2⟩, hE⟩, b3⟩, b4⟩, b5⟩
 
+/-- **histories on a queued machine whose callbacks trigger further events** ("through the queue"): such a call
+only appends to the queue, the event is processed after the current one, one at a time; the same conclusions hold
+for the whole history — the `api`/`ret` marks of the nested calls are interleaved with exits and enters and are
+invisible to the bookkeeping — and the queue is empty again when the outermost call returns -/
+theorem C02_history_queued (cfg : NCfg) (hwf : cfg.states.WF = true) (sc : Script) (hR : NoRaise sc)
+    (hT : TriggersOnly sc) (hq : cfg.queued = true)
+    (qmax fuel : Nat) (evs : List Nat) (s0 s' : NSt) (h0 : NSt.init cfg = some s0)
+    (h : nrunHistory sc cfg qmax fuel evs s0 = some s') :
+    s'.queue = [] ∧
+    GI cfg (grun cfg (G.init cfg s0.conf) s'.glog) s'.conf ∧
+    (grun cfg (G.init cfg s0.conf) s'.glog).core = (false, false, false, false, false) ∧
+    ((grun cfg (G.init cfg s0.conf) s'.glog).maxExec ≤ 1 → (grun cfg (G.init cfg s0.conf) s'.glog).clean = true) := by
+  obtain ⟨hI, hcl⟩ := C02_init cfg hwf s0 h0
+  have hs0 : s0.glog = [] ∧ s0.queue = [] := by
+    simp only [NSt.init, Option.map_eq_some_iff] at h0
+    obtain ⟨f, _, rfl⟩ := h0; exact ⟨rfl, rfl⟩
+  obtain ⟨⟨seg, hl, hc⟩, hq'⟩ := frame_history_queued cfg sc (RInv cfg) hR hT hq (rinv_closedQ cfg sc hwf hR hT)
+    qmax fuel evs s0 s' hs0.2 h
+  have hseg : s'.glog = seg := by
+    have : s'.view.glog = s0.view.glog ++ seg := hl
+    simpa [NSt.view, hs0.1] using this
+  obtain ⟨hi, hcore, _, hete⟩ := hc _ hI
+  rw [hseg]
+  simp only [G.clean, Bool.and_eq_true, Bool.not_eq_true'] at hcl
+  obtain ⟨⟨⟨⟨⟨a1, a2⟩, a3⟩, a4⟩, a5⟩, a6⟩ := hcl
+  have hcore0 : (G.init cfg s0.conf).core = (false, false, false, false, false) := by
+    simp only [G.core, a1, a2, a4, a5, a6]
+  refine ⟨hq', hi, hcore.trans hcore0, fun hm => ?_⟩
+  have hcore' := hcore.trans hcore0
+  simp only [G.core, Prod.mk.injEq] at hcore'
+  obtain ⟨b1, b2, b3, b4, b5⟩ := hcore'
+  have hE : (grun cfg (G.init cfg s0.conf) seg).enteredThenExited = false := by
+    cases hx : (grun cfg (G.init cfg s0.conf) seg).enteredThenExited with
+    | false => rfl
+    | true =>
+      rcases hete hx with h1 | h1
+      · rw [a3] at h1; cases h1
+      · omega
+  simp only [G.clean, Bool.and_eq_true, Bool.not_eq_true']
+  exact ⟨⟨⟨⟨⟨b1, b2⟩, hE⟩, b3⟩, b4⟩, b5⟩
+
+/-- **machines without active parallel states** (all transitions declared on the machine, unqueued): from a
+configuration in which no state has two active children one trigger call executes at most one transition
+(`C03_exec_le_one_of_chain`), so a clean ghost stays clean — unconditionally: this is the full statement of the
+property for hierarchical machines as long as no parallel state is active -/
+theorem C02_step_exclusive (cfg : NCfg) (hwf : cfg.states.WF = true) (sub : NSub) (sc : Script)
+    (hR : NoRaise sc) (hC : NoCmds sc) (hq : cfg.queued = false) (hno : cfg.states.noEvents = true)
+    (qmax ev : Nat) (s s' : NSt) (g : G) (hI : GI cfg g s.conf) (hidle : s.queue = [])
+    (hchain : s.conf.isChain = true) (hcl : g.clean = true) (hex : g.execd = []) (hmax : g.maxExec ≤ 1)
+    (h : (napiTrigger sub sc cfg qmax ev s).state? = some s') :
+    ∃ seg, s'.glog = s.glog ++ seg ∧ GI cfg (grun cfg g seg) s'.conf ∧ (grun cfg g seg).clean = true ∧
+      (grun cfg g seg).maxExec ≤ 1 := by
+  obtain ⟨seg, hl, hi, hclean⟩ := C02_step_clean cfg hwf sub sc hR hC qmax ev s s' g hI hcl h
+  obtain ⟨seg', hl', hle⟩ := C03_exec_le_one_of_chain cfg sub sc hR hC hq hno qmax ev s s' hI.root1 hI.conf_ok hidle hchain h
+  have hss : seg' = seg := List.append_cancel_left (hl'.symm.trans hl)
+  subst hss
+  have hb := (grun_execd_le cfg seg' g).2
+  rw [hex] at hb
+  simp only [List.length_nil, Nat.zero_add] at hb
+  have hm : (grun cfg g seg').maxExec ≤ 1 := by omega
+  exact ⟨seg', hl, hi, hclean hm, hm⟩
+
 /-! ### order of exits and enters, closure of the entered part -/
 
 /-- `resolve_order` lists every node of a state tree exactly once, deepest level first: every state comes after
@@ -259,6 +324,54 @@ theorem C02_new_configuration (cfg : NCfg) (hwf : cfg.states.WF = true) (scope :
   obtain ⟨_, _, _, _, _, _, _, _, _, tok, tlen, tmem⟩ :=
     resolveTransition_spec enterSpec_holds enterRootEq_holds cfg hwf scope hsc conf hc hlen dest r h
   exact ⟨tok, tlen, tmem⟩
+
+/-! ### the state value and the observable trace -/
+
+/-- the model keeps the configuration as a tree, the code keeps `_build_state_list(tree)` in the model's state
+attribute and rebuilds the tree with `build_state_tree` whenever it needs it: the two are inverse to each other, and
+the state value names exactly the leaves of the tree, in order -/
+theorem C02_state_value_roundtrip (f : Forest) (hwf : f.WF = true) (hne : f ≠ .nil) :
+    buildStateTree (buildStateList [] f) .nil = f ∧ (buildStateList [] f).names = f.leaves :=
+  ⟨buildStateTree_buildStateList f hwf hne, buildStateList_names f⟩
+
+/-- **the verified monitor accepts the model's observable traces**: on a machine instrumented by the recorder
+convention (`Instrumented`: first on_enter / on_exit / prepare / before / finalize callbacks present and unique),
+the ghost events `C02.project` reads off the model's `Item` log ARE its ghost log; so `C02.check` — the function the
+driver runs on implementation traces — accepts every history of the model in which no event executes two transitions -/
+theorem C02_monitor_accepts_model (cfg : NCfg) (hwf : cfg.states.WF = true) (hI : Instrumented cfg)
+    (sc : Script) (hR : NoRaise sc) (hC : NoCmds sc) (qmax fuel : Nat) (evs : List Nat) (s0 s' : NSt)
+    (h0 : NSt.init cfg = some s0) (h : nrunHistory sc cfg qmax fuel evs s0 = some s') :
+    project cfg s'.log = s'.glog ∧
+    ((grun cfg (G.init cfg s0.conf) (project cfg s'.log)).maxExec ≤ 1 → check cfg s0.conf s'.log = true) := by
+  have hlogs : s0.log = [] ∧ s0.glog = [] := by
+    simp only [NSt.init, Option.map_eq_some_iff] at h0
+    obtain ⟨f, _, rfl⟩ := h0; exact ⟨rfl, rfl⟩
+  have hp : project cfg s'.log = s'.glog :=
+    project_history cfg hwf hI sc hC qmax fuel evs s0 s' (by rw [hlogs.1, hlogs.2]; rfl) h
+  refine ⟨hp, fun hm => ?_⟩
+  rw [hp] at hm
+  simp only [check, hp]
+  exact (C02_history cfg hwf sc hR hC qmax fuel evs s0 s' h0 h).2.2 hm
+
+/-- non-vacuity of the recorder convention: `P`(1) ⊃ `a`(2), `b`(3); `Q`(4), every state with its own on_enter /
+on_exit recorder (plus a second on_enter callback on `P`), one machine-level and one locally declared transition with
+their prepare / before recorders, a finalize recorder -/
+def c02Inst : NCfg :=
+  { states := .cons { name := 1, initial := [2], onEnter := [11, 99], onExit := [21],
+                      events := [(0, [{ source := [2], dest := some [3], prepare := [31], before := [41] }])] }
+      (.cons { name := 2, onEnter := [12], onExit := [22] } .nil
+        (.cons { name := 3, onEnter := [13], onExit := [23] } .nil .nil))
+      (.cons { name := 4, onEnter := [14], onExit := [24] } .nil .nil),
+    events := [(1, [{ source := [1], dest := some [4], prepare := [32], before := [42], conds := [⟨60, true⟩] }])],
+    finalize := [50, 51], initial := [1] }
+
+example : Instrumented c02Inst := by
+  constructor <;> decide
+
+/-- the model's observable trace of the history [0, 1] is accepted by the monitor as run by the driver -/
+example : ((NSt.init c02Inst).bind fun s0 => (nrunHistory c02Script c02Inst 8 2 [0, 1] s0).map fun s =>
+      (buildStateList [] s.conf, check c02Inst s0.conf s.log, s.log.length, decide (project c02Inst s.log = s.glog)))
+    = some (.name [4], true, 32, true) := by decide
 
 /-! ### non-vacuity: a machine with parallel states nested in a parallel state -/
 
